@@ -456,6 +456,37 @@ func genCase(t *rapid.T) Case {
 		top := c.Mods[0].Nodes[0]
 		top.Kids = append([]*sg.Node{box}, top.Kids...)
 	}
+	caseName := ""
+	if g.Chance(1, 3, "casenamegadget") && len(c.Mods[0].Nodes) > 0 {
+		// a case that is named like a data node next to its choice (case names live in the scope of their choice, so this
+		// is legal): the sibling is an ordinary node of the container - required, or with a default - not a member of
+		// the choice
+		str := func() *sg.TypeSpec { return &sg.TypeSpec{Name: "string"} }
+		caseName = []string{"gc-tls", "name", "address"}[g.Pick(3, "gcname")]
+		dv := "dflt"
+		var sib *sg.Node
+		switch g.Pick(5, "gcsib") {
+		case 0:
+			sib = &sg.Node{Kind: "leaf", Name: caseName, Type: str(), Mandatory: "true"}
+		case 1:
+			sib = &sg.Node{Kind: "leaf-list", Name: caseName, Type: str(), Min: "1"}
+		case 2:
+			sib = &sg.Node{Kind: "leaf", Name: caseName, Type: str(), Default: &dv}
+		case 3:
+			sib = &sg.Node{Kind: "container", Name: caseName, Kids: []*sg.Node{{Kind: "leaf", Name: "gc-in", Type: str(), Mandatory: "true"}}}
+		default:
+			sib = &sg.Node{Kind: "container", Name: caseName, Kids: []*sg.Node{{Kind: "leaf", Name: "gc-in", Type: str(), Default: &dv}}}
+		}
+		sec := &sg.Node{Kind: "choice", Name: "gc-sec", Kids: []*sg.Node{{Kind: "case", Name: caseName, Kids: []*sg.Node{{Kind: "leaf", Name: "gc-cert", Type: str()}}},
+			{Kind: "case", Name: "gc-none", Kids: []*sg.Node{{Kind: "leaf", Name: "gc-x", Type: str()}}}}}
+		kids := []*sg.Node{sib, sec}
+		if g.Bool("gcorder") {
+			kids = []*sg.Node{sec, sib}
+		}
+		box := &sg.Node{Kind: "container", Name: "gc-box", Presence: "p", Kids: kids}
+		top := c.Mods[0].Nodes[0]
+		top.Kids = append([]*sg.Node{box}, top.Kids...)
+	}
 	w := newWorld(c.Mods)
 	if w == nil {
 		return c
@@ -463,6 +494,44 @@ func genCase(t *rapid.T) Case {
 	_, tops := w.tops()
 	x := &gen{g, w}
 	c.Data = x.kids(tops, 4)
+	if caseName != "" && g.Chance(3, 4, "gcdata") {
+		top := c.Mods[0].Nodes[0]
+		box := &D{Name: "gc-box"}
+		switch g.Pick(3, "gcactive") {
+		case 0:
+			box.Kids = append(box.Kids, &D{Name: "gc-cert", Vals: []string{"c"}})
+		case 1:
+			box.Kids = append(box.Kids, &D{Name: "gc-x", Vals: []string{"x"}})
+		}
+		if g.Chance(1, 4, "gcsibpresent") {
+			sn := top.Kids[0].Kids[0]
+			if sn.Name != caseName {
+				sn = top.Kids[0].Kids[1]
+			}
+			if sn.Kind == "container" {
+				box.Kids = append(box.Kids, &D{Name: caseName, Kids: []*D{{Name: "gc-in", Vals: []string{"v"}}}})
+			} else {
+				box.Kids = append(box.Kids, &D{Name: caseName, Vals: []string{"v"}})
+			}
+		}
+		var topD *D
+		for _, d := range c.Data {
+			if d.Name == top.Name {
+				topD = d
+			}
+		}
+		if topD == nil {
+			topD = &D{Name: top.Name}
+			c.Data = append(c.Data, topD)
+		}
+		var kept []*D
+		for _, k := range topD.Kids {
+			if k.Name != "gc-box" {
+				kept = append(kept, k)
+			}
+		}
+		topD.Kids = append(kept, box)
+	}
 	if uniqGadget && g.Chance(3, 4, "uniqdata") {
 		gl := &D{Name: "gu-list"}
 		n := 2 + g.Pick(3, "uniqentries")
